@@ -11,7 +11,7 @@ CLAIM = ("RateMonitoring + CheckupRate<EqualTo|GreaterThan> driven by EVERY inte
          "change nothing; after every event status, message suffix and value string agree with each other and with the rate and "
          "threshold; 'no data received' before the first stamp; STALE with an empty value after a timeout")
 BOUNDS = dict(quick="expected rate 2 Hz (W = 4), tolerance 0.5, histories of 7 events from a fresh object (all 2^7 interleavings), periods in [1 us, 10 s], heartbeat delays in [0, 3 s]; window formula for every rate in [0.5, 200]",
-              thorough="adds W = 5 (2.5 Hz) with 10 events and 9-event histories for W = 4")
+              thorough="adds W = 5 (2.5 Hz) with 8 events and 8-event histories for W = 4 (9/10 events exceed 45 min on 16 cores)")
 ASSUMPTIONS = ["exact domain: the double division 1e9/(sum/W) and the 0.5 s comparison are over the reals",
                "libstdc++ models (vf/stdlib.py): std::string with concrete bytes, std::map red-black tree (port of tree.cc), std::list hooks, "
                "std::deque/queue executed from its IR; toStringInfoValue returns an opaque token bound to the formatted value",
@@ -20,11 +20,11 @@ OUTSIDE = ["500-event histories", "the digits of the formatted rate", "rounding 
 
 def entries(tier):
     es = [Entry("c17_window", "real", "int", budget=dict(concretize=80))]
-    ev = 7 if tier == "quick" else 9
+    ev = 7 if tier == "quick" else 8
     for fn, g in (("c17_history_eq", 0), ("c17_history_gt", 1)):
         es.append(Entry(fn, "real", "int", dict(rate=2.0, eps=0.5, W=4, events=ev, greater=g), shard=8, budget=dict(paths=100000, time=2000)))
     if tier != "quick":
-        es.append(Entry("c17_history_eq", "real", "int", dict(rate=2.5, eps=0.1, W=5, events=10, greater=0), shard=16, budget=dict(paths=200000, time=3000)))
+        es.append(Entry("c17_history_eq", "real", "int", dict(rate=2.5, eps=0.1, W=5, events=8, greater=0), shard=16, budget=dict(paths=200000, time=3000)))
     return es
 
 def tv_vectors(tier):
